@@ -16,7 +16,7 @@ RULE = ("Shards enumerate the 25 ordered (l_a,l_b) pairs 0..4; Hypothesis draws 
         "shells, an origin (on a centre / 1e-10..1e-4 off a centre / off centre / far up to 100 bohr), a list of 1-6 order triples from (0..4)^3 "
         "with repetition and in arbitrary sequence (thorough: a second sub-check sweeps all 125 triples per cell), an "
         "optional transformation matrix and a second origin.  Oracle: R1 three-factor integrals in list order, "
-        "tolerance 1e-8*(<a|m^2|a><b|m^2|b>)^(1/4) (Cauchy-Schwarz scale, from the oracle); order (0,0,0) = overlap; "
+        "tolerance 1e-8*(<a|m^2|a><b|m^2|b>)^(1/4) (Cauchy-Schwarz scale, from the oracle, evaluated with |coefficients| so that it cannot cancel); order (0,0,0) = overlap; "
         "moments about a second origin = binomial combination of the library's own lower moments.  Non-trivial: "
         "l>=2 with an order>=2, or >=3 triples not in sorted order, or an off-centre origin.")
 ASSUMPTIONS = ["reference integrals from vf/ref R1/R3/R4"]
@@ -74,11 +74,11 @@ def judge(case):
     C = np.array(case["origin"], dtype=float)
     v = Verdict(classes=["l%d-l%d" % (shells[0]["l"], shells[1]["l"]), "origin-" + case.get("ocls", "?")])
     R = r3.refs(shells)
-    both = np.concatenate([orders, 2 * orders])
-    ref = r3.two_index(R, R, lambda a, b: r3.moment_block(a, b, C, both))
+    ref1 = r3.two_index(R, R, lambda a, b: r3.moment_block(a, b, C, orders))
     n = len(orders)
-    ref1, ref2 = ref[:, :, :n], ref[:, :, n:]
-    dg = np.abs(np.einsum("aak->ak", ref2)) ** 0.25
+    # Cauchy-Schwarz scale <a|m^2|a> evaluated with |coefficients|: an upper bound that cannot cancel to zero
+    Rabs = r3.abs_shells(R)
+    dg = np.abs(r3.diag_index(Rabs, lambda a, b: r3.moment_block(a, b, C, 2 * orders))) ** 0.25
     scale = dg[:, None, :] * dg[None, :, :]
     bas = mk_basis(shells)
     got = lib(moment_integral, bas, C, orders)
@@ -122,7 +122,7 @@ def judge(case):
     at2 = lib(moment_integral, bas, C2, tgt)
     idx = {t: i for i, t in enumerate(lower)}
     # rounding scale of each lower library moment: its own Cauchy-Schwarz scale (from the oracle)
-    dlow = np.abs(r3.diag_index(R, lambda a, b: r3.moment_block(a, b, C, 2 * np.array(lower, dtype=int)))) ** 0.25
+    dlow = np.abs(r3.diag_index(Rabs, lambda a, b: r3.moment_block(a, b, C, 2 * np.array(lower, dtype=int)))) ** 0.25
     for q, o in enumerate(tgt):
         want = 0.0
         mag = 0.0
